@@ -30,10 +30,19 @@
           `unsignedCtor_roundtrip` + `gen_unsigned_limits_ok`; named bit strings:
           `gen_bits_ok`, `bitsFromNames_sets`.
 
-  Trusted / not in the theorems: Python's float ↔ IEEE bit pattern
-  (`struct.pack('>f'/'>d')`) and str ↔ UTF-8; both are compared by the harness.
+  * Real as a Python float (a double): `Model.Ieee` transcribes the C casts behind
+    `struct.pack/unpack('>f')` on bit patterns → `narrow_widen` (a float holding a
+    single-precision value packs to exactly that value's pattern), `real_float_roundtrip`,
+    `narrow_refuses_iff` / `real_float_refuses` (exactly the finite doubles that would
+    become infinite are refused).
+
+  Trusted / not in the theorems: that the FPU / `struct` implement IEEE‑754
+  round-to-nearest-even as `Model.Ieee` says (tied by the `real64`/`widen`
+  correspondence streams on every run), `'>d'` being the identity on the eight
+  octets, and str ↔ UTF-8.
 -/
 import BacVerif.Model.Prim
+import BacVerif.Model.Ieee
 import BacVerif.Props.C02
 import BacVerif.Gen.Enums
 import BacVerif.Lemmas.C01Distinct
@@ -1352,6 +1361,180 @@ theorem unsigned_canonical_unique (n : Nat) (h : n < 4294967296) (d : Bytes)
       omega
   exact beVal_inj d' d (by omega) (by rw [hv, h3])
 
+/-! ## Real at the level of the Python float (Model.Ieee) -/
+
+theorem rne_exact (q shift : Nat) (_hs : 1 ≤ shift) : rne (q * 2 ^ shift) shift = q := by
+  have hp : 0 < 2 ^ shift := Nat.pow_pos (by omega)
+  have hh : 0 < 2 ^ (shift - 1) := Nat.pow_pos (by omega)
+  unfold rne
+  simp only [Nat.mul_mod_left, Nat.mul_div_cancel _ hp]
+  have : ¬ (0 > 2 ^ (shift - 1) ∨ 0 = 2 ^ (shift - 1) ∧ q % 2 = 1) := by omega
+  rw [if_neg this]
+
+theorem narrowF64_mk (s e m : Nat) (hs : s < 2) (he : e < 2048) (hm : m < 4503599627370496) :
+    narrowF64 (mkF64 s e m) = narrowFields s e m := by
+  unfold narrowF64 mkF64
+  have e1 : (s * 9223372036854775808 + e * 4503599627370496 + m) / 9223372036854775808 % 2 = s := by omega
+  have e2 : (s * 9223372036854775808 + e * 4503599627370496 + m) / 4503599627370496 % 2048 = e := by omega
+  have e3 : (s * 9223372036854775808 + e * 4503599627370496 + m) % 4503599627370496 = m := by omega
+  rw [e1, e2, e3]
+
+/-- **narrow_widen** — every single-precision value that is not a NaN, once
+    held as a Python float (`widenF32`), is packed by `struct.pack('>f')`
+    (`narrowF64`) to exactly its own bit pattern: no rounding, no refusal. -/
+theorem narrow_widen (b : Nat) (hb : b < 4294967296) (hn : isNaN32 b = false) :
+    narrowF64 (widenF32 b) = .ok b := by
+  simp only [isNaN32, decide_eq_false_iff_not] at hn
+  unfold widenF32
+  generalize hee : b / 8388608 % 256 = e at *
+  generalize hmm : b % 8388608 = m at *
+  generalize hss : b / 2147483648 % 2 = s at *
+  have hs : s < 2 := by omega
+  have hm : m < 8388608 := by omega
+  have he : e < 256 := by omega
+  have hbs : b = mkF32 s e m := by unfold mkF32; omega
+  rw [hbs]
+  unfold widenFields
+  by_cases he255 : e = 255
+  · have hm0 : m = 0 := by
+      apply Classical.byContradiction; intro h; exact hn ⟨he255, h⟩
+    subst he255; subst hm0
+    rw [if_pos rfl, if_pos rfl, narrowF64_mk s 2047 0 hs (by omega) (by omega)]
+    rfl
+  · rw [if_neg he255]
+    by_cases he0 : e = 0
+    · subst he0
+      rw [if_pos rfl]
+      by_cases hm0 : m = 0
+      · subst hm0
+        rw [if_pos rfl, narrowF64_mk s 0 0 hs (by omega) (by omega)]
+        rfl
+      · rw [if_neg hm0]
+        simp only
+        have hlo : 2 ^ Nat.log2 m ≤ m := Nat.log2_self_le hm0
+        have hhi : m < 2 ^ (Nat.log2 m + 1) := Nat.lt_log2_self
+        generalize Nat.log2 m = k at *
+        have hk22 : k ≤ 22 := by
+          apply Classical.byContradiction; intro hc
+          have : 2 ^ 23 ≤ 2 ^ k := Nat.pow_le_pow_right (by omega) (by omega)
+          omega
+        have hpow : 2 ^ k * 2 ^ (52 - k) = 4503599627370496 := by
+          rw [← Nat.pow_add]; have : k + (52 - k) = 52 := by omega
+          rw [this]
+        have hge : 4503599627370496 ≤ m * 2 ^ (52 - k) := by
+          rw [← hpow]; exact Nat.mul_le_mul_right _ hlo
+        have hmant : 4503599627370496 + (m - 2 ^ k) * 2 ^ (52 - k) = m * 2 ^ (52 - k) := by
+          rw [Nat.sub_mul, hpow]; omega
+        have hlt : m * 2 ^ (52 - k) < 2 * 4503599627370496 := by
+          have h1 : m * 2 ^ (52 - k) < 2 ^ (k + 1) * 2 ^ (52 - k) :=
+            Nat.mul_lt_mul_of_pos_right hhi (Nat.pow_pos (by omega))
+          have h2 : 2 ^ (k + 1) * 2 ^ (52 - k) = 2 * 4503599627370496 := by
+            rw [Nat.pow_succ, Nat.mul_comm (2 ^ k) 2, Nat.mul_assoc, hpow]
+          omega
+        have hfrac : (m - 2 ^ k) * 2 ^ (52 - k) < 4503599627370496 := by omega
+        rw [narrowF64_mk s (k + 874) _ hs (by omega) hfrac]
+        unfold narrowFields
+        rw [if_neg (by omega), if_neg (by omega), if_neg (by omega)]
+        have hsh : 926 - (k + 874) = 52 - k := by omega
+        rw [hsh, hmant, rne_exact m (52 - k) (by omega)]
+        exact congrArg Except.ok (by unfold mkF32; omega)
+    · rw [if_neg he0]
+      rw [narrowF64_mk s (e + 896) (m * 536870912) hs (by omega) (by omega)]
+      unfold narrowFields
+      rw [if_neg (by omega), if_neg (by omega), if_pos (by omega)]
+      simp only
+      have hq : 4503599627370496 + m * 536870912 = (8388608 + m) * 2 ^ 29 := by omega
+      rw [hq, rne_exact (8388608 + m) 29 (by omega)]
+      have n4 : ¬ (e + 896 - 897) * 8388608 + (8388608 + m) ≥ 2139095040 := by omega
+      rw [if_neg n4]
+      exact congrArg Except.ok (by unfold mkF32; omega)
+
+theorem rne_29 (x : Nat) :
+    (rne x 29 = x / 536870912 ∧
+      ¬ (x % 536870912 > 268435456 ∨ (x % 536870912 = 268435456 ∧ x / 536870912 % 2 = 1))) ∨
+    (rne x 29 = x / 536870912 + 1 ∧
+      (x % 536870912 > 268435456 ∨ (x % 536870912 = 268435456 ∧ x / 536870912 % 2 = 1))) := by
+  simp only [rne, Nat.reducePow, Nat.reduceSub]
+  split
+  · rename_i h; exact Or.inr ⟨rfl, h⟩
+  · rename_i h; exact Or.inl ⟨rfl, h⟩
+
+/-- **narrow_refuses_iff** — `struct.pack('>f')` refuses exactly the finite
+    doubles whose nearest single would be infinite (|x| ≥ 2^128 − 2^103, bit
+    pattern 0x47EFFFFFF0000000 and above); it never turns a finite value into
+    an infinity.  Everything else is encoded. -/
+theorem narrow_refuses_iff (b : Nat) :
+    (∃ e, narrowF64 b = .error e) ↔
+      (5183643170835005440 ≤ b % 9223372036854775808 ∧ b % 9223372036854775808 < 9218868437227405312) := by
+  unfold narrowF64
+  generalize hee : b / 4503599627370496 % 2048 = e at *
+  generalize hmm : b % 4503599627370496 = m at *
+  generalize hss : b / 9223372036854775808 % 2 = s at *
+  have hm : m < 4503599627370496 := by omega
+  have he : e < 2048 := by omega
+  have hb : b % 9223372036854775808 = e * 4503599627370496 + m := by omega
+  rw [hb]
+  unfold narrowFields
+  by_cases h1 : e = 2047
+  · rw [if_pos h1]
+    constructor
+    · intro ⟨x, hx⟩; split at hx <;> cases hx
+    · intro h; omega
+  · rw [if_neg h1]
+    by_cases h2 : e = 0
+    · rw [if_pos h2]
+      constructor
+      · intro ⟨x, hx⟩; cases hx
+      · intro h; omega
+    · rw [if_neg h2]
+      by_cases h3 : e ≥ 897
+      · rw [if_pos h3]
+        simp only
+        have hr := rne_29 (4503599627370496 + m)
+        generalize rne (4503599627370496 + m) 29 = R at *
+        by_cases hbits : (e - 897) * 8388608 + R ≥ 2139095040
+        · rw [if_pos hbits]
+          constructor
+          · intro _; omega
+          · intro _; exact ⟨_, rfl⟩
+        · rw [if_neg hbits]
+          constructor
+          · intro ⟨x, hx⟩; cases hx
+          · intro h; exfalso
+            have hq : (4503599627370496 + m) / 536870912 ≥ 8388608 := by omega
+            by_cases hA : e ≤ 1149
+            · omega
+            · by_cases hB : e = 1150
+              · subst hB; omega
+              · have : e - 897 ≥ 254 := by omega
+                omega
+      · rw [if_neg h3]
+        constructor
+        · intro ⟨x, hx⟩; cases hx
+        · intro h; omega
+
+/-- **real_float_roundtrip** — Real at the level of the Python float: a float
+    holding a single-precision value (`widenF32 b`, not a NaN) encodes to the
+    same tag as the bit-pattern model says (`encodePrim (.real b)`, four octets)
+    and decodes to the very same float. -/
+theorem real_float_roundtrip (b : UInt32) (hn : isNaN32 b.toNat = false) :
+    ∃ t, encodeRealFloat (widenF32 b.toNat) = .ok t ∧ encodePrim (.real b) = .ok t ∧
+      decodeRealFloat t = .ok (widenF32 b.toNat) := by
+  have hb := b.toNat_lt
+  have h1 := narrow_widen b.toNat (by simpa using hb) hn
+  obtain ⟨t, h2, h3⟩ := prim_roundtrip (.real b) trivial
+  refine ⟨t, ?_, h2, ?_⟩
+  · simp [encodeRealFloat, h1, h2]
+  · simp only [tyOf] at h3
+    simp [decodeRealFloat, h3]
+
+/-- an over-range float is refused by `Real.encode`, never sent as ±infinity -/
+theorem real_float_refuses (x : Nat)
+    (h : 5183643170835005440 ≤ x % 9223372036854775808 ∧ x % 9223372036854775808 < 9218868437227405312) :
+    ∃ e, encodeRealFloat x = .error e := by
+  obtain ⟨e, he⟩ := (narrow_refuses_iff x).mpr h
+  exact ⟨e, by simp [encodeRealFloat, he]⟩
+
 /-! ## non-vacuity: concrete, non-trivial instances of every hypothesis
     (these are tests of the statements, not the theorems) -/
 
@@ -1405,5 +1588,15 @@ example : bitsFromNames Gen.Enums.bits_basetypes_StatusFlags 4
 -- `app_to_object` recovers type and value from the tag alone; reserved numbers give None
 example : appToObject (appData 3 [0xFF, 0x7F]) = .ok (some (.integer (-129))) := rfl
 example : appToObject (appData 13 []) = .ok none := rfl
+
+-- Real at float level: 0.1f (0x3DCCCCCD) held as a Python float is 0x3FB99999A0000000; the
+-- hypotheses of `narrow_widen` / `real_float_roundtrip` / `narrow_refuses_iff` on concrete patterns
+example : isNaN32 0x3DCCCCCD = false ∧ widenF32 0x3DCCCCCD = 0x3FB99999A0000000 ∧
+    narrowF64 0x3FB99999A0000000 = .ok 0x3DCCCCCD := ⟨rfl, rfl, rfl⟩
+example : narrowF64 0x3FB999999999999A = .ok 0x3DCCCCCD := rfl            -- Real(0.1): rounded
+example : widenF32 1 = 0x36A0000000000000 ∧ narrowF64 0x36A0000000000000 = .ok 1 := ⟨rfl, rfl⟩  -- least subnormal
+example : narrowF64 0x3690000000000000 = .ok 0 ∧ narrowF64 0x3690000000000001 = .ok 1 := ⟨rfl, rfl⟩  -- tie to even / just above
+example : narrowF64 0x47EFFFFFEFFFFFFF = .ok 0x7F7FFFFF ∧ narrowF64 0x47EFFFFFF0000000 = .error .valueRange ∧
+    narrowF64 0x7FF0000000000000 = .ok 0x7F800000 := ⟨rfl, rfl, rfl⟩
 
 end BacVerif.C01
